@@ -411,7 +411,8 @@ class Exec(object):
                 raise Unsupported('unknown class %s' % ct[1])
             return self.symbolic_obj(cls, name, exact=hint.get('exact', False))
         if 'value' in hint:
-            return hint['value']
+            v = hint['value']
+            return v(self) if callable(v) else v
         raise Unsupported('no symbolic value for %s of type %s' % (name, ct))
 
     def symbolic_array(self, name, ndim, elem, kind, refcls=None):
